@@ -1427,9 +1427,6 @@ def _defs_map(fn: ast.AST) -> dict[str, list[ast.expr]]:
                             val = ast.copy_location(ast.Subscript(value=val, slice=ast.Constant(value=k_), ctx=ast.Load()), val)  # _, b = f()
                     if isinstance(x, ast.Name):
                         out.setdefault(x.id, []).append(val)
-                        continue
-                    if False:
-                        out.setdefault(x.id, []).append(s.value)
                     elif isinstance(x, ast.Subscript) and isinstance(x.value, ast.Name):
                         out.setdefault(x.value.id, []).append(s.value)
                         out.setdefault(x.value.id, []).append(x.slice)
